@@ -59,7 +59,7 @@ theorem seq_output_concat_inline {α} (kind : SeqKind) (items : Nat → Item) (e
 /-- the source ids of the delivered notifications are non-decreasing for the inline hand-over too -/
 theorem seq_output_sorted_inline {α} (kind : SeqKind) (items : Nat → Item) (es : List (Ev α)) :
     ((accepted (seqInlineM (α := α) kind items) seqInit es).map (·.1)).Pairwise (· ≤ ·) :=
-  (gen_ids_sorted _ items (fun st e h => seq_inline_step_inv kind items st e h) (seq_inline_subs_step kind items)
+  (gen_ids_sorted _ (fun st e h => seq_inline_step_inv kind items st e h) (fun st e _ => seq_inline_idx_mono kind items st e)
     es _ seq_init_inv).2
 
 /-- **repeat_n_subscribes_n_inline.** repeat(n) under the inline hand-over: subscribe ids `0,1,…` without gaps, at most n,
@@ -70,7 +70,7 @@ theorem repeat_n_subscribes_n_inline {α} (n : Nat) (es : List (Ev α)) :
     (Notif.completed ∈ emits (run m seqInit es) → subsOf (run m seqInit es) = List.range n) := by
   intro m
   have hinv : ∀ st e, SInv st → SInv (step m st e).1 := fun st e h => seq_inline_step_inv .concat _ st e h
-  have hsub := seq_inline_subs_step (α := α) .concat (itemsCount (some n))
+  have hsub := seq_inline_subs_step (α := α) .concat (itemsCount (some n)) (itemsCount_noFail _)
   have hcount := gen_run_count m _ hinv hsub es _ seq_init_inv
   have hle := gen_idx_le_count m n hinv hsub es _ seq_init_inv (Nat.zero_le _)
   have h0 : List.range seqInit.s.idx = [] := rfl
@@ -92,7 +92,7 @@ theorem retry_at_most_n_inline {α} (n : Nat) (es : List (Ev α)) :
     ∃ c, c ≤ n ∧ subsOf (run (seqInlineM (α := α) .catch (itemsCount (some n))) seqInit es) = List.range c := by
   have hinv : ∀ st e, SInv st → SInv (step (seqInlineM (α := α) .catch (itemsCount (some n))) st e).1 :=
     fun st e h => seq_inline_step_inv .catch _ st e h
-  have hsub := seq_inline_subs_step (α := α) .catch (itemsCount (some n))
+  have hsub := seq_inline_subs_step (α := α) .catch (itemsCount (some n)) (itemsCount_noFail _)
   have hcount := gen_run_count _ _ hinv hsub es _ seq_init_inv
   have h0 : List.range seqInit.s.idx = [] := rfl
   rw [h0, List.nil_append] at hcount
@@ -148,7 +148,7 @@ theorem seq_next_after_terminal {α} (kind : SeqKind) (items : Nat → Item) (es
   have h : SInv st := seq_final_inv (α := α) kind items es _ seq_init_inv
   constructor
   · intro j hj
-    have hs := (seq_step_subs (α := α) kind items st e).1
+    have hs := seq_step_subs1 (α := α) kind items st e
     rw [← mem_subsOf, hs] at hj
     cases e with
     | tick =>
@@ -204,7 +204,7 @@ theorem repeat_n_subscribes_n {α} (n : Nat) (es : List (Ev α)) :
     (∃ c, c ≤ n ∧ subsOf (run m seqInit es) = List.range c) ∧
     (Notif.completed ∈ emits (run m seqInit es) → subsOf (run m seqInit es) = List.range n) := by
   intro m
-  have hcount := seq_run_count (α := α) .concat (itemsCount (some n)) es seqInit
+  have hcount := seq_run_count (α := α) .concat (itemsCount (some n)) (itemsCount_noFail _) es seqInit
   have hle := seq_idx_le_count (α := α) .concat n es seqInit (Nat.zero_le _)
   have h0 : List.range seqInit.s.idx = [] := rfl
   rw [h0, List.nil_append] at hcount
@@ -225,7 +225,7 @@ theorem repeat_n_subscribes_n {α} (n : Nat) (es : List (Ev α)) :
 /-- **retry_at_most_n.** `retry(n)` (= catch kind over n copies) subscribes at most n times (ids `0, 1, …` without gaps). -/
 theorem retry_at_most_n {α} (n : Nat) (es : List (Ev α)) :
     ∃ c, c ≤ n ∧ subsOf (run (seqM (α := α) .catch (itemsCount (some n))) seqInit es) = List.range c := by
-  have hcount := seq_run_count (α := α) .catch (itemsCount (some n)) es seqInit
+  have hcount := seq_run_count (α := α) .catch (itemsCount (some n)) (itemsCount_noFail _) es seqInit
   have h0 : List.range seqInit.s.idx = [] := rfl
   rw [h0, List.nil_append] at hcount
   exact ⟨_, seq_idx_le_count (α := α) .catch n es seqInit (Nat.zero_le _), hcount⟩
@@ -241,7 +241,7 @@ theorem retry_stops_on_completion {α} (items : Nat → Item) (pre post : List (
   have hwf := final_WF m seqInit pre seq_init_inv.wf
   have hd := step_src_done_of_terminal m (final m seqInit pre) k .completed hk (by simp [m, seqM, seqHandler, actEmits, Notif.isTerminal])
   constructor
-  · rw [run_append, run_cons, subsOf_append, subsOf_append, (seq_step_subs .catch items _ _).1,
+  · rw [run_append, run_cons, subsOf_append, subsOf_append, seq_step_subs1 .catch items _ _,
       seq_subs_done .catch items post _ (step_WF m _ _ hwf) hd]
     simp
   · rw [run_append, run_cons, emits_append, emits_append, emits_step_src m _ k _ hwf hk,
@@ -259,5 +259,18 @@ example :
     run (seqM (α := Nat) .catch (itemsCount (some 3))) seqInit
       [.tick, .src 0 (.error "a"), .tick, .src 1 (.next 5), .src 1 (.error "b"), .tick, .src 2 .completed, .tick]
       = [.sub 0, .unsub 0, .sub 1, .emit (.next 5), .unsub 1, .sub 2, .emit .completed, .unsub 2] := by decide
+
+/-- non-vacuity: an UNLOGGED failing source (`fail`, e.g. `rx.throw(ex)` in the list) under catch is continued over — it takes
+position 1, nothing is subscribed for it in the trace, the next action subscribes source 2, whose completion ends the result -/
+example :
+    run (seqM (α := Nat) .catch (fun j => if j = 1 then .fail "x" else if j < 3 then .src else .stop)) seqInit
+      [.tick, .src 0 (.next 1), .src 0 (.error "a"), .tick, .tick, .src 2 (.next 3), .src 2 .completed]
+      = [.sub 0, .emit (.next 1), .unsub 0, .sub 2, .emit (.next 3), .emit .completed, .unsub 2] := by decide
+
+/-- … and if nothing follows it, its error is the one catch reports (last_exception) -/
+example :
+    run (seqM (α := Nat) .catch (fun j => if j = 1 then .fail "x" else if j < 1 then .src else .stop)) seqInit
+      [.tick, .src 0 (.error "a"), .tick, .tick]
+      = [.sub 0, .unsub 0, .emit (.error "x")] := by decide
 
 end C10
